@@ -145,6 +145,49 @@ pub fn canon_tree(t: &[ANode], known: &BTreeSet<usize>) -> Vec<ANode> {
         .collect()
 }
 
+/// RFC 9420 §7.8 tree hash recomputed from scratch by plain recursion over the exported nodes
+/// (independent of the library's incremental cache; only the node encodings come from the library).
+pub fn independent_tree_hash(nodes: &[Option<Node>], suite: u16) -> Vec<u8> {
+    use mls_rs::mls_rs_codec::MlsEncode;
+    let cs = mls_rs_crypto_rustcrypto::RustCryptoProvider::default().cipher_suite_provider(CipherSuite::from(suite)).unwrap();
+    let n_leaves = (nodes.len() / 2 + 1).next_power_of_two();
+    fn vb(b: &[u8]) -> Vec<u8> {
+        let mut v = crate::c13::varint(b.len());
+        v.extend_from_slice(b);
+        v
+    }
+    fn go<P: CipherSuiteProvider>(cs: &P, nodes: &[Option<Node>], lo: usize, hi: usize) -> Vec<u8> {
+        // subtree covering node indices [lo, hi] (hi - lo + 1 = 2^(k+1) - 1)
+        if lo == hi {
+            let mut inp = vec![1u8];
+            inp.extend_from_slice(&((lo / 2) as u32).to_be_bytes());
+            match nodes.get(lo).and_then(|n| n.as_ref()) {
+                Some(Node::Leaf(l)) => {
+                    inp.push(1);
+                    inp.extend(l.mls_encode_to_vec().unwrap());
+                }
+                _ => inp.push(0),
+            }
+            return cs.hash(&inp).unwrap();
+        }
+        let mid = (lo + hi) / 2;
+        let left = go(cs, nodes, lo, mid - 1);
+        let right = go(cs, nodes, mid + 1, hi);
+        let mut inp = vec![2u8];
+        match nodes.get(mid).and_then(|n| n.as_ref()) {
+            Some(Node::Parent(p)) => {
+                inp.push(1);
+                inp.extend(p.mls_encode_to_vec().unwrap());
+            }
+            _ => inp.push(0),
+        }
+        inp.extend(vb(&left));
+        inp.extend(vb(&right));
+        cs.hash(&inp).unwrap()
+    }
+    go(&cs, nodes, 0, 2 * n_leaves - 2)
+}
+
 fn name_of(n: usize) -> String {
     let c = (b'A' + (n % 26) as u8) as char;
     if n < 26 {
@@ -943,6 +986,36 @@ impl<'a, C: MlsConfig> Hist<'a, C> {
         // no trailing blank (C08)
         if nodes.last().map(|n| n.is_none()).unwrap_or(false) {
             self.fail("C08", format!("tree of {cname} ends in a blank node after m{cmi}"));
+        }
+        // C08: the tree hash in every member's context equals an independent from-scratch recomputation over the
+        // exported nodes; the exported tree + GroupInfo pass the validation of an outside observer
+        {
+            let suite = self.w.members[c].setup.suite;
+            for &i in &now {
+                let g = self.w.group(i);
+                let exported: Vec<Option<Node>> = g.export_tree().nodes().to_vec();
+                let h = independent_tree_hash(&exported, suite);
+                if h != g.context().tree_hash {
+                    let n = self.w.members[i].setup.name.clone();
+                    self.fail("C08", format!("tree hash in {n}'s group context differs from the hash recomputed from its exported tree (after m{cmi})"));
+                }
+            }
+            let g = self.w.group(c);
+            match g.group_info_message_allowing_ext_commit(true) {
+                Ok(gi) => {
+                    let ext = mls_rs::external_client::ExternalClient::builder()
+                        .crypto_provider(mls_rs_crypto_rustcrypto::RustCryptoProvider::default())
+                        .identity_provider(mls_rs::identity::basic::BasicIdentityProvider)
+                        .build();
+                    match std::panic::catch_unwind(std::panic::AssertUnwindSafe(|| ext.observe_group(gi, None, None))) {
+                        Ok(Ok(_)) => {}
+                        Ok(Err(e)) => self.fail("C08", format!("the tree + GroupInfo exported by {cname} after m{cmi} fail an observer's validation: {}", err_class(&e))),
+                        Err(_) => self.fail("C08", format!("observer validation of {cname}'s tree panics after m{cmi}")),
+                    }
+                    *self.rep.ops.entry("observer-validate".into()).or_default() += 1;
+                }
+                Err(e) => self.fail("C08", format!("{cname} cannot export group info after m{cmi}: {}", err_class(&e))),
+            }
         }
         let depth = (nodes.len() as f64 + 1.0).log2().ceil() as u32;
         self.rep.max_depth = self.rep.max_depth.max(depth);
